@@ -919,6 +919,9 @@ def step (s : DState) (line : String) : DState × String :=
   match args with
   | ["reset"] => (DState.init, "ok reset")
   | ["numkind", _] => (s, "ok")   -- representation of numbers on the Python side only
+  | ["q_hash_stable", _a, _name] =>
+    -- the hash of an object never changes (whatever converter is active)
+    (s, "ok stable=true fresh=true")
   | ["q_alloc_cmp", a, ratios, _other, dflt] =>
     -- every portion of an allocation compares with an equal quantity in another
     -- unit as its amount says (C04): the model answers `true` whenever the
